@@ -204,8 +204,30 @@ class NestedParent(WrappingQuery):
                     self._nextdoc = None
 
         def skip_to(self, id):
-            self.child.skip_to(id)
-            self._gather()
+            if self._nextdoc is None:
+                raise matching.ReadTooFar
+            if id <= self._nextdoc:
+                # Already at or past the target
+                return
+
+            # The child matcher is already past the children of the current
+            # parent; children of a parent at or after the target have
+            # document numbers greater than the target
+            child = self.child
+            if child.is_active():
+                child.skip_to(id)
+            if child.is_active() and self.comb.before(child.id() + 1) < id:
+                # The target lies inside a group of children: that group's
+                # parent comes before the target, so go on to the next group
+                nextparent = self.comb.after(child.id())
+                if nextparent is None:
+                    nextparent = self.maxdoc
+                child.skip_to(nextparent)
+
+            if child.is_active():
+                self._gather()
+            else:
+                self._nextdoc = None
 
         def value(self):
             raise NotImplementedError(self.__class__)
